@@ -29,6 +29,46 @@ theorem pur_asStr {v : Val} (h : HasTy E .str v) : Pur env (asStr v) (fun _ => T
   obtain ⟨n, rfl⟩ := (hasTy_str E v).mp h; exact Pur.pure _ trivial
 theorem pur_asTy {v : Val} (h : HasTy E .ty v) : Pur env (asTy v) TyWF := by
   obtain ⟨n, rfl, hn⟩ := (hasTy_ty E v).mp h; exact Pur.pure _ hn
+theorem pur_asPackageV {v : Val} (h : HasTy E .package v) : Pur env (asPackageV v) (fun _ => True) := by
+  obtain ⟨n, rfl⟩ := (hasTy_package E v).mp h; exact Pur.pure _ trivial
+theorem pur_asImportV {v : Val} (h : HasTy E .import_ v) : Pur env (asImportV v) (fun _ => True) := by
+  obtain ⟨n, rfl⟩ := (hasTy_import_ E v).mp h; exact Pur.pure _ trivial
+theorem pur_asItemV {v : Val} (h : HasTy E .item v) : Pur env (asItemV v) ItemWF := by
+  obtain ⟨n, rfl, hn⟩ := (hasTy_item E v).mp h; exact Pur.pure _ hn
+theorem pur_asIfaceV {v : Val} (h : HasTy E .iface v) : Pur env (asIfaceV v) (fun i => ItemWF (.interface i)) := by
+  obtain ⟨n, rfl, hn⟩ := (hasTy_iface E v).mp h; exact Pur.pure _ hn
+theorem pur_asParcV {v : Val} (h : HasTy E .parc v) : Pur env (asParcV v) (fun i => ItemWF (.parcelable i)) := by
+  obtain ⟨n, rfl, hn⟩ := (hasTy_parc E v).mp h; exact Pur.pure _ hn
+theorem pur_asEnmV {v : Val} (h : HasTy E .enm v) : Pur env (asEnmV v) (fun _ => True) := by
+  obtain ⟨n, rfl⟩ := (hasTy_enm E v).mp h; exact Pur.pure _ trivial
+theorem pur_asMethodV {v : Val} (h : HasTy E .method v) :
+    Pur env (asMethodV v) (fun m => TyWF m.returnType ∧ ∀ a ∈ m.args, TyWF a.argType) := by
+  obtain ⟨n, rfl, hn⟩ := (hasTy_method E v).mp h; exact Pur.pure _ hn
+theorem pur_asConstV {v : Val} (h : HasTy E .const v) : Pur env (asConstV v) (fun c => TyWF c.constType) := by
+  obtain ⟨n, rfl, hn⟩ := (hasTy_const E v).mp h; exact Pur.pure _ hn
+theorem pur_asFieldV {v : Val} (h : HasTy E .field v) : Pur env (asFieldV v) (fun f => TyWF f.fieldType) := by
+  obtain ⟨n, rfl, hn⟩ := (hasTy_field E v).mp h; exact Pur.pure _ hn
+theorem pur_asEnumElV {v : Val} (h : HasTy E .enumEl v) : Pur env (asEnumElV v) (fun _ => True) := by
+  obtain ⟨n, rfl⟩ := (hasTy_enumEl E v).mp h; exact Pur.pure _ trivial
+theorem pur_asDirV {v : Val} (h : HasTy E .dir v) : Pur env (asDirV v) (fun _ => True) := by
+  obtain ⟨n, rfl⟩ := (hasTy_dir E v).mp h; exact Pur.pure _ trivial
+theorem pur_asStrPairV {v : Val} (h : HasTy E (.pair .str .str) v) : Pur env (asStrPairV v) (fun _ => True) := by
+  obtain ⟨x, y, rfl, hx, hy⟩ := (hasTy_pair E _ _ v).mp h
+  obtain ⟨a, rfl⟩ := (hasTy_str E x).mp hx
+  obtain ⟨b, rfl⟩ := (hasTy_str E y).mp hy
+  exact Pur.pure _ trivial
+theorem pur_asLocTokV {v : Val} (h : HasTy E (.pair .loc .tok) v) : Pur env (asLocTokV v) (fun _ => True) := by
+  obtain ⟨x, y, rfl, hx, hy⟩ := (hasTy_pair E _ _ v).mp h
+  obtain ⟨a, rfl⟩ := (hasTy_loc E x).mp hx
+  obtain ⟨b, rfl⟩ := (hasTy_tok E y).mp hy
+  exact Pur.pure _ trivial
+theorem pur_asAnnParamV {v : Val} (h : HasTy E (.pair .str (.opt .str)) v) : Pur env (asAnnParamV v) (fun _ => True) := by
+  obtain ⟨x, y, rfl, hx, hy⟩ := (hasTy_pair E _ _ v).mp h
+  obtain ⟨a, rfl⟩ := (hasTy_str E x).mp hx
+  rcases (hasTy_opt E _ y).mp hy with rfl | ⟨w, rfl, hw⟩
+  · exact Pur.pure _ trivial
+  · obtain ⟨b, rfl⟩ := (hasTy_str E w).mp hw
+    exact Pur.pure _ trivial
 theorem pur_asArgV {v : Val} (h : HasTy E .arg v) : Pur env (asArgV v) (fun a => TyWF a.argType) := by
   obtain ⟨n, rfl, hn⟩ := (hasTy_arg E v).mp h; exact Pur.pure _ hn
 theorem pur_asIelV {v : Val} (h : HasTy E .iel v) : Pur env (asIelV v) (fun e => ∀ t ∈ e.topTypes, TyWF t) := by
@@ -291,6 +331,40 @@ macro "tstep" : tactic => `(tactic| first
   | with_reducible refine Pur.bind (Pur.map (pur_asStr (by with_unfolding_all tgood)) (fun _ _ => trivial) (Q := fun _ => True)) (fun _ _ => ?_)
   | with_reducible refine Pur.bind (Pur.mapM _ (P := fun _ => True) _ (fun _ _ => ?_)) (fun _ _ => ?_)
   | exact pur_simpleType _ _ _ _ (by decide)
+  | with_reducible refine Pur.bind (pur_asPackageV (by with_unfolding_all tgood)) (fun _ _ => ?_)
+  | with_reducible exact Pur.mono (pur_asPackageV (by with_unfolding_all tgood)) (fun _ _ => trivial)
+  | with_reducible refine Pur.bind (pur_asImportV (by with_unfolding_all tgood)) (fun _ _ => ?_)
+  | with_reducible exact Pur.mono (pur_asImportV (by with_unfolding_all tgood)) (fun _ _ => trivial)
+  | with_reducible refine Pur.bind (pur_asItemV (by with_unfolding_all tgood)) (fun _ _ => ?_)
+  | with_reducible exact Pur.mono (pur_asItemV (by with_unfolding_all tgood)) (fun _ _ => trivial)
+  | with_reducible refine Pur.bind (pur_asIfaceV (by with_unfolding_all tgood)) (fun _ _ => ?_)
+  | with_reducible exact Pur.mono (pur_asIfaceV (by with_unfolding_all tgood)) (fun _ _ => trivial)
+  | with_reducible refine Pur.bind (pur_asParcV (by with_unfolding_all tgood)) (fun _ _ => ?_)
+  | with_reducible exact Pur.mono (pur_asParcV (by with_unfolding_all tgood)) (fun _ _ => trivial)
+  | with_reducible refine Pur.bind (pur_asEnmV (by with_unfolding_all tgood)) (fun _ _ => ?_)
+  | with_reducible exact Pur.mono (pur_asEnmV (by with_unfolding_all tgood)) (fun _ _ => trivial)
+  | with_reducible refine Pur.bind (pur_asMethodV (by with_unfolding_all tgood)) (fun _ _ => ?_)
+  | with_reducible exact Pur.mono (pur_asMethodV (by with_unfolding_all tgood)) (fun _ _ => trivial)
+  | with_reducible refine Pur.bind (pur_asConstV (by with_unfolding_all tgood)) (fun _ _ => ?_)
+  | with_reducible exact Pur.mono (pur_asConstV (by with_unfolding_all tgood)) (fun _ _ => trivial)
+  | with_reducible refine Pur.bind (pur_asFieldV (by with_unfolding_all tgood)) (fun _ _ => ?_)
+  | with_reducible exact Pur.mono (pur_asFieldV (by with_unfolding_all tgood)) (fun _ _ => trivial)
+  | with_reducible refine Pur.bind (pur_asEnumElV (by with_unfolding_all tgood)) (fun _ _ => ?_)
+  | with_reducible exact Pur.mono (pur_asEnumElV (by with_unfolding_all tgood)) (fun _ _ => trivial)
+  | with_reducible refine Pur.bind (pur_asDirV (by with_unfolding_all tgood)) (fun _ _ => ?_)
+  | with_reducible exact Pur.mono (pur_asDirV (by with_unfolding_all tgood)) (fun _ _ => trivial)
+  | with_reducible refine Pur.bind (pur_asStrPairV (by with_unfolding_all tgood)) (fun _ _ => ?_)
+  | with_reducible exact Pur.mono (pur_asStrPairV (by with_unfolding_all tgood)) (fun _ _ => trivial)
+  | with_reducible refine Pur.bind (pur_asLocTokV (by with_unfolding_all tgood)) (fun _ _ => ?_)
+  | with_reducible exact Pur.mono (pur_asLocTokV (by with_unfolding_all tgood)) (fun _ _ => trivial)
+  | with_reducible refine Pur.bind (pur_asAnnParamV (by with_unfolding_all tgood)) (fun _ _ => ?_)
+  | with_reducible exact Pur.mono (pur_asAnnParamV (by with_unfolding_all tgood)) (fun _ _ => trivial)
+  | with_reducible refine Pur.bind (pur_asArgV (by with_unfolding_all tgood)) (fun _ _ => ?_)
+  | with_reducible exact Pur.mono (pur_asArgV (by with_unfolding_all tgood)) (fun _ _ => trivial)
+  | with_reducible refine Pur.bind (pur_asIelV (by with_unfolding_all tgood)) (fun _ _ => ?_)
+  | with_reducible exact Pur.mono (pur_asIelV (by with_unfolding_all tgood)) (fun _ _ => trivial)
+  | with_reducible refine Pur.bind (pur_asPelV (by with_unfolding_all tgood)) (fun _ _ => ?_)
+  | with_reducible exact Pur.mono (pur_asPelV (by with_unfolding_all tgood)) (fun _ _ => trivial)
   | with_reducible refine Pur.pure _ ?_
   | (with_reducible refine Pur.bad _ _ ?_ ?_ ?_) <;> decide)
 
@@ -308,6 +382,23 @@ macro "tstepE" : tactic => `(tactic| first
   | with_reducible refine PurE.bind (PurE.of_pur (pur_asList (by with_unfolding_all tgood))) (fun _ _ => ?_)
   | with_reducible refine PurE.bind (PurE.of_pur (pur_asOpt (by with_unfolding_all tgood))) (fun _ _ => ?_)
   | with_reducible refine PurE.bind (PurE.of_pur (pur_asAnns (by with_unfolding_all tgood))) (fun _ _ => ?_)
+  | with_reducible refine PurE.bind (PurE.of_pur (pur_asPackageV (by with_unfolding_all tgood))) (fun _ _ => ?_)
+  | with_reducible refine PurE.bind (PurE.of_pur (pur_asImportV (by with_unfolding_all tgood))) (fun _ _ => ?_)
+  | with_reducible refine PurE.bind (PurE.of_pur (pur_asItemV (by with_unfolding_all tgood))) (fun _ _ => ?_)
+  | with_reducible refine PurE.bind (PurE.of_pur (pur_asIfaceV (by with_unfolding_all tgood))) (fun _ _ => ?_)
+  | with_reducible refine PurE.bind (PurE.of_pur (pur_asParcV (by with_unfolding_all tgood))) (fun _ _ => ?_)
+  | with_reducible refine PurE.bind (PurE.of_pur (pur_asEnmV (by with_unfolding_all tgood))) (fun _ _ => ?_)
+  | with_reducible refine PurE.bind (PurE.of_pur (pur_asMethodV (by with_unfolding_all tgood))) (fun _ _ => ?_)
+  | with_reducible refine PurE.bind (PurE.of_pur (pur_asConstV (by with_unfolding_all tgood))) (fun _ _ => ?_)
+  | with_reducible refine PurE.bind (PurE.of_pur (pur_asFieldV (by with_unfolding_all tgood))) (fun _ _ => ?_)
+  | with_reducible refine PurE.bind (PurE.of_pur (pur_asEnumElV (by with_unfolding_all tgood))) (fun _ _ => ?_)
+  | with_reducible refine PurE.bind (PurE.of_pur (pur_asDirV (by with_unfolding_all tgood))) (fun _ _ => ?_)
+  | with_reducible refine PurE.bind (PurE.of_pur (pur_asStrPairV (by with_unfolding_all tgood))) (fun _ _ => ?_)
+  | with_reducible refine PurE.bind (PurE.of_pur (pur_asLocTokV (by with_unfolding_all tgood))) (fun _ _ => ?_)
+  | with_reducible refine PurE.bind (PurE.of_pur (pur_asAnnParamV (by with_unfolding_all tgood))) (fun _ _ => ?_)
+  | with_reducible refine PurE.bind (PurE.of_pur (pur_asArgV (by with_unfolding_all tgood))) (fun _ _ => ?_)
+  | with_reducible refine PurE.bind (PurE.of_pur (pur_asIelV (by with_unfolding_all tgood))) (fun _ _ => ?_)
+  | with_reducible refine PurE.bind (PurE.of_pur (pur_asPelV (by with_unfolding_all tgood))) (fun _ _ => ?_)
   | with_reducible refine PurE.bind (PurE.pushDiag _) (fun _ _ => ?_)
   | with_reducible refine purE_bind_pure ?_
   | with_reducible refine PurE.bind (PurE.of_pur (Pur.mapM _ (P := fun _ => True) _ (fun _ _ => ?_))) (fun _ _ => ?_)
@@ -325,8 +416,21 @@ theorem tact_16 (env : Env) (E : Prop) (args : List ArgV)
     Pur env (userAction 16 args) (HasTy E (.optNS .aidl)) := by
   unfold userAction
   simp only []
-  tauto'
+  refine Pur.bind (pur_nth h rfl) (fun v0 h0 => ?_)
+  refine Pur.bind (pur_asPackageV h0) (fun p _ => ?_)
+  refine Pur.bind (pur_nth h rfl) (fun v1 h1 => ?_)
+  refine Pur.bind (pur_asList h1) (fun l1 hl1 => ?_)
+  refine Pur.bind (Pur.mapM (P := fun _ => True) _ l1 (fun a ha => pur_asImportV (hl1 a ha))) (fun imps _ => ?_)
+  refine Pur.bind (pur_nth h rfl) (fun v2 h2 => ?_)
+  refine Pur.bind (pur_asList h2) (fun l2 hl2 => ?_)
+  refine Pur.bind (Pur.mapM (P := fun _ => True) _ l2 (fun a ha => pur_asImportV (hl2 a ha))) (fun decls _ => ?_)
+  refine Pur.bind (pur_nth h rfl) (fun v3 h3 => ?_)
+  refine Pur.bind (pur_asOptNS h3) (fun o ho => ?_)
+  cases o with
+  | none => exact Pur.pure _ (ho.1 rfl)
+  | some w => exact Pur.bind (pur_asItemV (ho.2 w rfl)) (fun it hit => Pur.pure _ hit)
 
+set_option maxHeartbeats 4000000 in
 set_option maxRecDepth 10000 in
 theorem tact_17 (env : Env) (E : Prop) (args : List ArgV)
     (h : ArgsTyped E [.triple .loc, .triple .tok, .triple .loc, .triple .str, .triple .loc, .triple .loc, .triple .tok] args) :
@@ -335,6 +439,7 @@ theorem tact_17 (env : Env) (E : Prop) (args : List ArgV)
   simp only []
   tauto'
 
+set_option maxHeartbeats 4000000 in
 set_option maxRecDepth 10000 in
 theorem tact_18 (env : Env) (E : Prop) (args : List ArgV)
     (h : ArgsTyped E [.triple .loc, .triple .tok, .triple .loc, .triple (.list .tok), .triple .tok, .triple .loc, .triple .loc, .triple .tok] args) :
@@ -343,6 +448,7 @@ theorem tact_18 (env : Env) (E : Prop) (args : List ArgV)
   simp only []
   tauto'
 
+set_option maxHeartbeats 4000000 in
 set_option maxRecDepth 10000 in
 theorem tact_19 (env : Env) (E : Prop) (args : List ArgV)
     (h : ArgsTyped E [.triple (.list .tok), .triple .tok] args) :
@@ -351,6 +457,7 @@ theorem tact_19 (env : Env) (E : Prop) (args : List ArgV)
   simp only []
   tauto'
 
+set_option maxHeartbeats 4000000 in
 set_option maxRecDepth 10000 in
 theorem tact_20 (env : Env) (E : Prop) (args : List ArgV)
     (h : ArgsTyped E [.triple (.list .ann), .triple .loc, .triple .tok, .triple .loc, .triple (.pair .str .str), .triple .loc, .triple .tok, .triple .loc] args) :
@@ -360,6 +467,7 @@ theorem tact_20 (env : Env) (E : Prop) (args : List ArgV)
   tauto'
   all_goals (exfalso; rename_i hne hex; obtain ⟨x, y, rfl, ⟨a, rfl⟩, ⟨b, rfl⟩⟩ := hex; exact hne a b rfl)
 
+set_option maxHeartbeats 4000000 in
 set_option maxRecDepth 10000 in
 theorem tact_21 (env : Env) (E : Prop) (args : List ArgV)
     (h : ArgsTyped E [.triple .iface] args) :
@@ -368,6 +476,7 @@ theorem tact_21 (env : Env) (E : Prop) (args : List ArgV)
   simp only []
   tauto'
 
+set_option maxHeartbeats 4000000 in
 set_option maxRecDepth 10000 in
 theorem tact_22 (env : Env) (E : Prop) (args : List ArgV)
     (h : ArgsTyped E [.triple .parc] args) :
@@ -376,6 +485,7 @@ theorem tact_22 (env : Env) (E : Prop) (args : List ArgV)
   simp only []
   tauto'
 
+set_option maxHeartbeats 4000000 in
 set_option maxRecDepth 10000 in
 theorem tact_23 (env : Env) (E : Prop) (args : List ArgV)
     (h : ArgsTyped E [.triple .enm] args) :
@@ -396,6 +506,7 @@ theorem tact_25 (env : Env) (E : Prop) (args : List ArgV)
   refine Pur.bind (Pur.mapM (P := fun e => ∀ t ∈ e.topTypes, TyWF t) _ l (fun a ha => pur_asIelV (hl a ha))) (fun els hels => ?_)
   tauto'
 
+set_option maxHeartbeats 4000000 in
 set_option maxRecDepth 10000 in
 theorem tact_26 (env : Env) (E : Prop) (args : List ArgV)
     (h : ArgsTyped E [.triple .method] args) :
@@ -403,7 +514,7 @@ theorem tact_26 (env : Env) (E : Prop) (args : List ArgV)
   unfold userAction
   simp only []
   refine Pur.bind (pur_nth h rfl) (fun v hv => ?_)
-  obtain ⟨m, rfl, hm⟩ := (hasTy_method E v).mp hv
+  refine Pur.bind (pur_asMethodV hv) (fun m hm => ?_)
   refine Pur.pure _ ?_
   show ∀ t ∈ (InterfaceElement.method m).topTypes, TyWF t
   intro t ht
@@ -412,6 +523,7 @@ theorem tact_26 (env : Env) (E : Prop) (args : List ArgV)
   · exact hm.1
   · exact hm.2 a ha
 
+set_option maxHeartbeats 4000000 in
 set_option maxRecDepth 10000 in
 theorem tact_27 (env : Env) (E : Prop) (args : List ArgV)
     (h : ArgsTyped E [.triple .const] args) :
@@ -419,7 +531,7 @@ theorem tact_27 (env : Env) (E : Prop) (args : List ArgV)
   unfold userAction
   simp only []
   refine Pur.bind (pur_nth h rfl) (fun v hv => ?_)
-  obtain ⟨c, rfl, hc⟩ := (hasTy_const E v).mp hv
+  refine Pur.bind (pur_asConstV hv) (fun c hc => ?_)
   refine Pur.pure _ ?_
   show ∀ t ∈ (InterfaceElement.const c).topTypes, TyWF t
   intro t ht
@@ -439,6 +551,7 @@ theorem tact_29 (env : Env) (E : Prop) (args : List ArgV)
   refine Pur.bind (Pur.mapM (P := fun e => ∀ t ∈ e.topTypes, TyWF t) _ l (fun a ha => pur_asPelV (hl a ha))) (fun els hels => ?_)
   tauto'
 
+set_option maxHeartbeats 4000000 in
 set_option maxRecDepth 10000 in
 theorem tact_30 (env : Env) (E : Prop) (args : List ArgV)
     (h : ArgsTyped E [.triple .field] args) :
@@ -446,7 +559,7 @@ theorem tact_30 (env : Env) (E : Prop) (args : List ArgV)
   unfold userAction
   simp only []
   refine Pur.bind (pur_nth h rfl) (fun v hv => ?_)
-  obtain ⟨f, rfl, hf⟩ := (hasTy_field E v).mp hv
+  refine Pur.bind (pur_asFieldV hv) (fun f hf => ?_)
   refine Pur.pure _ ?_
   show ∀ t ∈ (ParcelableElement.field f).topTypes, TyWF t
   intro t ht
@@ -454,6 +567,7 @@ theorem tact_30 (env : Env) (E : Prop) (args : List ArgV)
   subst ht
   exact hf
 
+set_option maxHeartbeats 4000000 in
 set_option maxRecDepth 10000 in
 theorem tact_31 (env : Env) (E : Prop) (args : List ArgV)
     (h : ArgsTyped E [.triple .const] args) :
@@ -461,7 +575,7 @@ theorem tact_31 (env : Env) (E : Prop) (args : List ArgV)
   unfold userAction
   simp only []
   refine Pur.bind (pur_nth h rfl) (fun v hv => ?_)
-  obtain ⟨c, rfl, hc⟩ := (hasTy_const E v).mp hv
+  refine Pur.bind (pur_asConstV hv) (fun c hc => ?_)
   refine Pur.pure _ ?_
   show ∀ t ∈ (ParcelableElement.const c).topTypes, TyWF t
   intro t ht
@@ -478,6 +592,7 @@ theorem tact_33 (env : Env) (E : Prop) (args : List ArgV)
   simp only []
   tauto'
 
+set_option maxHeartbeats 4000000 in
 set_option maxRecDepth 10000 in
 theorem tact_34 (env : Env) (E : Prop) (args : List ArgV)
     (h : ArgsTyped E [.triple .enumEl] args) :
@@ -511,6 +626,7 @@ theorem tact_38 (env : Env) (E : Prop) (args : List ArgV)
   · exact Pur.bind (pur_mkRange _ _) (fun _ _ => Pur.pure _ trivial)
   · exact Pur.bind (pur_mkRange _ _) (fun _ _ => Pur.pure _ trivial)
 
+set_option maxHeartbeats 4000000 in
 set_option maxRecDepth 10000 in
 theorem tact_39 (env : Env) (E : Prop) (args : List ArgV)
     (h : ArgsTyped E [.triple .loc, .triple (.list .ann), .triple .loc, .triple .tok, .triple .ty, .triple .loc, .triple .tok, .triple .loc, .triple .tok, .triple .str, .triple .loc, .triple .tok] args) :
@@ -519,6 +635,7 @@ theorem tact_39 (env : Env) (E : Prop) (args : List ArgV)
   simp only []
   tauto'
 
+set_option maxHeartbeats 4000000 in
 set_option maxRecDepth 10000 in
 theorem tact_40 (env : Env) (E : Prop) (args : List ArgV)
     (h : ArgsTyped E [.triple .loc, .triple (.list .ann), .triple .loc, .triple .ty, .triple .loc, .triple .tok, .triple .loc, .triple (.opt .str), .triple .loc, .triple .tok] args) :
@@ -527,6 +644,7 @@ theorem tact_40 (env : Env) (E : Prop) (args : List ArgV)
   simp only []
   tauto'
 
+set_option maxHeartbeats 4000000 in
 set_option maxRecDepth 10000 in
 theorem tact_41 (env : Env) (E : Prop) (args : List ArgV)
     (h : ArgsTyped E [.triple .loc, .triple (.list .ann), .triple .loc, .triple .loc, .triple .tok, .triple .loc, .triple (.opt .tok), .triple .loc] args) :
@@ -535,6 +653,7 @@ theorem tact_41 (env : Env) (E : Prop) (args : List ArgV)
   simp only []
   tauto'
 
+set_option maxHeartbeats 4000000 in
 set_option maxRecDepth 10000 in
 theorem tact_50 (env : Env) (E : Prop) (args : List ArgV)
     (h : ArgsTyped E [.triple .loc, .triple .tok, .triple .loc] args) :
@@ -543,6 +662,7 @@ theorem tact_50 (env : Env) (E : Prop) (args : List ArgV)
   simp only []
   tauto'
 
+set_option maxHeartbeats 4000000 in
 set_option maxRecDepth 10000 in
 theorem tact_51 (env : Env) (E : Prop) (args : List ArgV)
     (h : ArgsTyped E [.triple .loc, .triple .tok, .triple .loc] args) :
@@ -551,6 +671,7 @@ theorem tact_51 (env : Env) (E : Prop) (args : List ArgV)
   simp only []
   tauto'
 
+set_option maxHeartbeats 4000000 in
 set_option maxRecDepth 10000 in
 theorem tact_52 (env : Env) (E : Prop) (args : List ArgV)
     (h : ArgsTyped E [.triple .loc, .triple .tok, .triple .loc] args) :
@@ -559,6 +680,7 @@ theorem tact_52 (env : Env) (E : Prop) (args : List ArgV)
   simp only []
   tauto'
 
+set_option maxHeartbeats 4000000 in
 set_option maxRecDepth 10000 in
 theorem tact_53 (env : Env) (E : Prop) (args : List ArgV)
     (h : ArgsTyped E [.triple .loc, .triple .tok, .triple .loc] args) :
@@ -567,6 +689,7 @@ theorem tact_53 (env : Env) (E : Prop) (args : List ArgV)
   simp only []
   tauto'
 
+set_option maxHeartbeats 4000000 in
 set_option maxRecDepth 10000 in
 theorem tact_54 (env : Env) (E : Prop) (args : List ArgV)
     (h : ArgsTyped E [.triple .loc, .triple .loc, .triple .ty, .triple .loc, .triple .tok, .triple .tok, .triple .loc] args) :
@@ -575,6 +698,7 @@ theorem tact_54 (env : Env) (E : Prop) (args : List ArgV)
   simp only []
   tauto'
 
+set_option maxHeartbeats 4000000 in
 set_option maxRecDepth 10000 in
 theorem tact_55 (env : Env) (E : Prop) (args : List ArgV)
     (h : ArgsTyped E [.triple .loc, .triple .loc, .triple .tok, .triple .loc, .triple .tok, .triple .ty, .triple .tok, .triple .loc] args) :
@@ -583,6 +707,7 @@ theorem tact_55 (env : Env) (E : Prop) (args : List ArgV)
   simp only []
   tauto'
 
+set_option maxHeartbeats 4000000 in
 set_option maxRecDepth 10000 in
 theorem tact_56 (env : Env) (E : Prop) (args : List ArgV)
     (h : ArgsTyped E [.triple .loc, .triple .tok, .triple .loc] args) :
@@ -591,6 +716,7 @@ theorem tact_56 (env : Env) (E : Prop) (args : List ArgV)
   simp only []
   tauto'
 
+set_option maxHeartbeats 4000000 in
 set_option maxRecDepth 10000 in
 theorem tact_57 (env : Env) (E : Prop) (args : List ArgV)
     (h : ArgsTyped E [.triple .loc, .triple .loc, .triple .tok, .triple .loc, .triple .tok, .triple .ty, .triple .tok, .triple .ty, .triple .tok, .triple .loc] args) :
@@ -599,6 +725,7 @@ theorem tact_57 (env : Env) (E : Prop) (args : List ArgV)
   simp only []
   tauto'
 
+set_option maxHeartbeats 4000000 in
 set_option maxRecDepth 10000 in
 theorem tact_58 (env : Env) (E : Prop) (args : List ArgV)
     (h : ArgsTyped E [.triple .loc, .triple .tok, .triple .loc] args) :
@@ -607,6 +734,7 @@ theorem tact_58 (env : Env) (E : Prop) (args : List ArgV)
   simp only []
   tauto'
 
+set_option maxHeartbeats 4000000 in
 set_option maxRecDepth 10000 in
 theorem tact_59 (env : Env) (E : Prop) (args : List ArgV)
     (h : ArgsTyped E [.triple .loc, .triple .str, .triple .loc] args) :
@@ -615,6 +743,7 @@ theorem tact_59 (env : Env) (E : Prop) (args : List ArgV)
   simp only []
   tauto'
 
+set_option maxHeartbeats 4000000 in
 set_option maxRecDepth 10000 in
 theorem tact_60 (env : Env) (E : Prop) (args : List ArgV)
     (h : ArgsTyped E [.triple (.list (.optNS .ann))] args) :
@@ -623,6 +752,7 @@ theorem tact_60 (env : Env) (E : Prop) (args : List ArgV)
   simp only []
   tauto'
 
+set_option maxHeartbeats 4000000 in
 set_option maxRecDepth 10000 in
 theorem tact_62 (env : Env) (E : Prop) (args : List ArgV)
     (h : ArgsTyped E [.triple .tok, .triple (.opt .tok)] args) :
@@ -631,6 +761,7 @@ theorem tact_62 (env : Env) (E : Prop) (args : List ArgV)
   simp only []
   tauto'
 
+set_option maxHeartbeats 4000000 in
 set_option maxRecDepth 10000 in
 theorem tact_63 (env : Env) (E : Prop) (args : List ArgV)
     (h : ArgsTyped E [.triple .tok] args) :
@@ -639,6 +770,7 @@ theorem tact_63 (env : Env) (E : Prop) (args : List ArgV)
   simp only []
   tauto'
 
+set_option maxHeartbeats 4000000 in
 set_option maxRecDepth 10000 in
 theorem tact_64 (env : Env) (E : Prop) (args : List ArgV)
     (h : ArgsTyped E [.triple .tok] args) :
@@ -647,6 +779,7 @@ theorem tact_64 (env : Env) (E : Prop) (args : List ArgV)
   simp only []
   tauto'
 
+set_option maxHeartbeats 4000000 in
 set_option maxRecDepth 10000 in
 theorem tact_65 (env : Env) (E : Prop) (args : List ArgV)
     (h : ArgsTyped E [.triple .tok] args) :
@@ -655,6 +788,7 @@ theorem tact_65 (env : Env) (E : Prop) (args : List ArgV)
   simp only []
   tauto'
 
+set_option maxHeartbeats 4000000 in
 set_option maxRecDepth 10000 in
 theorem tact_66 (env : Env) (E : Prop) (args : List ArgV)
     (h : ArgsTyped E [.triple .tok] args) :
@@ -663,6 +797,7 @@ theorem tact_66 (env : Env) (E : Prop) (args : List ArgV)
   simp only []
   tauto'
 
+set_option maxHeartbeats 4000000 in
 set_option maxRecDepth 10000 in
 theorem tact_67 (env : Env) (E : Prop) (args : List ArgV)
     (h : ArgsTyped E [.triple .tok, .triple .tok] args) :
@@ -671,6 +806,7 @@ theorem tact_67 (env : Env) (E : Prop) (args : List ArgV)
   simp only []
   tauto'
 
+set_option maxHeartbeats 4000000 in
 set_option maxRecDepth 10000 in
 theorem tact_68 (env : Env) (E : Prop) (args : List ArgV)
     (h : ArgsTyped E [.triple .tok, .triple (.list .str), .triple (.list .str), .triple (.opt .tok), .triple .tok] args) :
@@ -679,6 +815,7 @@ theorem tact_68 (env : Env) (E : Prop) (args : List ArgV)
   simp only []
   tauto'
 
+set_option maxHeartbeats 4000000 in
 set_option maxRecDepth 10000 in
 theorem tact_69 (env : Env) (E : Prop) (args : List ArgV)
     (h : ArgsTyped E [.triple .tok, .triple .tok, .triple .tok] args) :
@@ -687,6 +824,7 @@ theorem tact_69 (env : Env) (E : Prop) (args : List ArgV)
   simp only []
   tauto'
 
+set_option maxHeartbeats 4000000 in
 set_option maxRecDepth 10000 in
 theorem tact_100 (env : Env) (E : Prop) (args : List ArgV)
     (h : ArgsTyped E [.triple (.list .tok), .triple .tok] args) :
@@ -695,6 +833,7 @@ theorem tact_100 (env : Env) (E : Prop) (args : List ArgV)
   simp only []
   tauto'
 
+set_option maxHeartbeats 4000000 in
 set_option maxRecDepth 10000 in
 theorem tact_61 (env : Env) (E : Prop) (args : List ArgV)
     (h : ArgsTyped E [.triple .tok, .triple (.opt (.list (.pair .str (.opt .str))))] args) :
